@@ -51,6 +51,7 @@ def check(ctx: Ctx):
     from . import c09
 
     c03.check_no_pruning(ctx)
+    c03._guarded(ctx, "R03.3", c03.check_beats)  # "meets the threshold" is the exact, inclusive comparison
     c03._guarded(ctx, "R03.1", c03.check_codec)
     c03._guarded(ctx, "R09.1", c09.check_codec_width)
     c03._guarded(ctx, "R09.1", c09.check_codec_width_relational)
